@@ -28,6 +28,18 @@ var theT *testing.T
 // Main runs f with a *testing.T (synctest needs one) in an ordinary binary.
 // f normally ends with evid.Run.Finish(), which exits the process.
 func Main(f func(t *testing.T)) {
+	// testing.Main parses flags: keep our positional arguments in the environment
+	// (evid.New reads VERIF_TIER / VERIF_REPLAY).
+	for i, a := range os.Args[1:] {
+		switch a {
+		case "quick", "thorough":
+			os.Setenv("VERIF_TIER", a)
+		case "--replay":
+			if i+2 < len(os.Args) {
+				os.Setenv("VERIF_REPLAY", os.Args[i+2])
+			}
+		}
+	}
 	os.Args = os.Args[:1]
 	testing.Main(func(pat, str string) (bool, error) { return true, nil },
 		[]testing.InternalTest{{Name: "E1q", F: func(t *testing.T) { theT = t; f(t) }}}, nil, nil)
@@ -87,8 +99,14 @@ func (c *Ctl) Wait() { synctest.Wait() }
 // seams and the extra harness actions, and performs the chosen one. It returns
 // false when nothing is enabled. Canonical order: parked seams sorted by
 // (label, arrival), then extra actions in the order given.
-func (c *Ctl) Step(extra []Action) bool {
+func (c *Ctl) Step(extraFn func() []Action) bool {
 	synctest.Wait()
+	// the harness actions are computed AFTER quiescence: they usually depend on
+	// the state the previous step produced
+	var extra []Action
+	if extraFn != nil {
+		extra = extraFn()
+	}
 	c.mu.Lock()
 	sort.SliceStable(c.pending, func(i, j int) bool {
 		if c.pending[i].label != c.pending[j].label {
@@ -155,6 +173,14 @@ func (c *Ctl) ReleaseAll() {
 // returns makes synctest panic; that is reported as violation
 // "blocked goroutines remain: <stacks summary>" (liveness properties use it).
 func Harness(name string, maxSteps int, body func(c *Ctl) (string, string)) *vrt.Harness {
+	return HarnessOpt(name, maxSteps, true, body)
+}
+
+// HarnessOpt is Harness with a choice: leakIsViolation=false means goroutines
+// still blocked at the end are only recorded in the observation ("LEAK"), the
+// body's own oracle decides (use when the body itself checks which callers
+// returned).
+func HarnessOpt(name string, maxSteps int, leakIsViolation bool, body func(c *Ctl) (string, string)) *vrt.Harness {
 	return &vrt.Harness{Name: name, RunOnce: func(prefix []int) (*vrt.Exec, string, string) {
 		c := &Ctl{prefix: prefix, x: &vrt.Exec{}, maxStep: maxSteps}
 		var obs, vio string
@@ -162,7 +188,9 @@ func Harness(name string, maxSteps int, body func(c *Ctl) (string, string)) *vrt
 			defer func() {
 				if r := recover(); r != nil {
 					msg := fmt.Sprint(r)
-					if strings.Contains(msg, "blocked goroutines remain") || strings.Contains(msg, "deadlock") {
+					if (strings.Contains(msg, "blocked goroutines remain") || strings.Contains(msg, "deadlock")) && !leakIsViolation {
+						obs += " LEAK"
+					} else if strings.Contains(msg, "blocked goroutines remain") || strings.Contains(msg, "deadlock") {
 						c.x.Deadlock = true
 						c.x.Blocked = []string{summarize(msg)}
 						if vio == "" {
